@@ -938,7 +938,7 @@ class Generator:
                     edits.replace.pop(k, None)
                 edits.delete(it.open + 1, it.end - 1)
                 edits.ins_after(it.open, " unimplemented!() ", None)
-                edits.ins_before(it.a0, "#[verifier::external_body]\n", {"o": "spec", "f": None, "l": 0, "fn": fnpath})
+                edits.before.setdefault(it.a0, []).insert(0, ("#[verifier::external_body]\n", {"o": "spec", "f": None, "l": 0, "fn": fnpath}))
             if is_canary:
                 # rename and add `ensures false`
                 j = next_sig(toks, it.kw + 1, it.end)
@@ -1087,7 +1087,8 @@ class Generator:
             edits.before.pop(it.end - 1, None)
             edits.delete(it.open + 1, it.end - 1)
             edits.ins_after(it.open, " unimplemented!() ", sp)
-            edits.ins_before(it.a0, "#[verifier::external_body]\n", dict(sp, f=None) if str(blk.stub).startswith("AUTO-STUB") else sp)
+            # the attribute must precede whatever a rewrite rule put in front of the item's first token
+            edits.before.setdefault(it.a0, []).insert(0, ("#[verifier::external_body]\n", dict(sp, f=None) if str(blk.stub).startswith("AUTO-STUB") else sp))
             return
         lo, hi = it.open + 1, it.end - 1
 
